@@ -237,6 +237,12 @@ func (vc *VC) eval(e *SExpr, env *Env) *Val {
 				// used where a quantified fact is assumed and where it is proved
 				continue
 			}
+			if bt, isBasic := t.Underlying().(*types.Basic); isBasic && bt.Info()&types.IsString != 0 {
+				// likewise for strings: a guard on (slen q) only gets in the way
+				// of instantiation (lengths of strings read from the heap are
+				// not known to be non-negative term by term)
+				continue
+			}
 			if rf := vc.rangeFact(name, t); rf != "" {
 				guards = append(guards, rf)
 			}
@@ -291,6 +297,14 @@ func (vc *VC) eval(e *SExpr, env *Env) *Val {
 			hi := fmt.Sprintf("(slen %s)", x.T)
 			if e.Args[2] != nil {
 				hi = vc.eval(e.Args[2], env).T
+			}
+			if !vc.declared["ssub-axioms"] {
+				// substring facts, only in scripts whose contracts slice strings
+				saveG, saveN := vc.globalFact, vc.noEmit
+				vc.globalFact, vc.noEmit = true, 0
+				vc.declare("ssub-axioms", "(assert (forall ((s Str) (n Int)) (! (=> (= n (slen s)) (= (ssub s 0 n) s)) :pattern ((ssub s 0 n)))))\n"+
+					"(assert (forall ((s Str) (lo Int) (hi Int)) (! (=> (and (<= 0 lo) (<= lo hi) (<= hi (slen s))) (= (slen (ssub s lo hi)) (- hi lo))) :pattern ((ssub s lo hi)))))")
+				vc.globalFact, vc.noEmit = saveG, saveN
 			}
 			return &Val{T: fmt.Sprintf("(ssub %s %s %s)", x.T, lo, hi), Ty: x.Ty}
 		}
